@@ -56,6 +56,8 @@ type modelTSM struct {
 	afterReadDir func()
 	// strayDigest lists attempted digest writes to entries that are not bound (the TSM refuses them)
 	strayDigest []string
+	// freshIndex is what the index attribute of a newly made, not yet bound entry reads as
+	freshIndex []byte
 }
 
 var errTransient = errors.New("modelTSM: EIO (transient)")
@@ -156,7 +158,11 @@ func (m *modelTSM) MkdirTemp(dir, pattern string) (string, error) {
 	}
 	m.counter++
 	name := strings.Replace(pattern, "*", "", 1) + fmt.Sprintf("%010d", m.counter)
-	m.entries[name] = &tsmEntry{junk: []byte("-1\n")}
+	fresh := m.freshIndex
+	if fresh == nil {
+		fresh = []byte("-1\n")
+	}
+	m.entries[name] = &tsmEntry{junk: fresh}
 	return path.Join(tsmRoot, name), nil
 }
 
@@ -335,6 +341,7 @@ func TestC17(t *testing.T) {
 		s := gen.NewStream(rapid.Uint64().Draw(t, "content"), "c17")
 		m := &modelTSM{entries: map[string]*tsmEntry{}}
 		model := map[int][48]byte{} // index -> expected register
+		m.freshIndex = rapid.SampledFrom([][]byte{[]byte("-1\n"), []byte("-1\n"), []byte(""), []byte("\n"), []byte(" \n")}).Draw(t, "freshIndex")
 		// initial state
 		pre := rapid.SliceOfNDistinct(rapid.SampledFrom([]int{0, 1, 2, 3, 4, 7}), 0, 4, func(i int) int { return i }).Draw(t, "prebound")
 		for k, idx := range pre {
@@ -432,8 +439,10 @@ func TestC17(t *testing.T) {
 					gen.Fail(t, gen.Violation{Key: "entry-not-reused", Oracle: "an existing entry for the index is re-used", Detail: fmt.Sprintf("%s: existing entry %q, mkdirs=%d indexWrites=%d wrote to %q", desc, before, len(mkdirs), len(indexWrites), ename), Replay: rp})
 					return
 				}
-			} else if len(mkdirs) != 1 || len(indexWrites) != 1 {
-				gen.Fail(t, gen.Violation{Key: "entry-creation", Oracle: "exactly one entry is created and bound when none exists", Detail: fmt.Sprintf("%s: mkdirs=%d indexWrites=%d", desc, len(mkdirs), len(indexWrites)), Replay: rp})
+			} else if len(mkdirs) > 1 || len(indexWrites) != 1 {
+				// (binding an entry that is already there but bound to nothing, instead of making a new one, is within the
+				// property: the extend still lands on the one entry bound to the index)
+				gen.Fail(t, gen.Violation{Key: "entry-creation", Oracle: "exactly one entry is bound when none exists", Detail: fmt.Sprintf("%s: mkdirs=%d indexWrites=%d", desc, len(mkdirs), len(indexWrites)), Replay: rp})
 				return
 			}
 			if len(others) != 0 {
@@ -565,6 +574,43 @@ func TestC17(t *testing.T) {
 				default:
 					hiccups++
 				}
+			},
+			// a valid request for an index that has its entry, during which another entry of the directory goes away (its
+			// owner removes it) between the library's listing and its reading of that entry's index: the request succeeds
+			// through the existing entry all the same
+			"entry-vanishes-after-listing": func(t *rapid.T) {
+				idx := rapid.IntRange(0, 3).Draw(t, "idx")
+				before, _ := m.boundEntry(idx)
+				if before == "" {
+					t.Skip("index has no entry yet")
+				}
+				n := len(before)
+				cands := []string{before[:n-1], before[:n-1] + string(rune(before[n-1]-1)) + "~", before[:n-1] + string(rune(before[n-1]-1)) + "zzzz", "0-first", "zzzz-last", fmt.Sprintf("rtmr%d-0000000000", idx)}
+				if rapid.Bool().Draw(t, "anywhere") {
+					cands = cands[3:]
+				}
+				decoy := ""
+				for _, c := range cands {
+					if c == "" || strings.ContainsAny(c, "/\x00") || m.entries[c] != nil {
+						continue
+					}
+					decoy = c
+					break
+				}
+				if decoy == "" {
+					t.Skip("no free name")
+				}
+				m.entries[decoy] = &tsmEntry{junk: rapid.SampledFrom([][]byte{[]byte("-1\n"), []byte(""), []byte("7\n")}).Draw(t, "decoyIndex")}
+				gone := false
+				m.afterReadDir = func() { gone = true; delete(m.entries, decoy) }
+				d := s.Bytes(48)
+				cl := pickClient(t)
+				step(fmt.Sprintf("ExtendDigestClient(%d, 48 bytes) while entry %q (next to %q) is removed right after the listing", idx, decoy, before), idx, d, true, func() error { return rtmr.ExtendDigestClient(cl, idx, d) })
+				m.afterReadDir = nil
+				if !gone {
+					delete(m.entries, decoy)
+				}
+				gen.Class("history:entry-vanishes-after-listing")
 			},
 			// somebody else (another process) binds an entry for an index that has none yet, under a name of its own
 			"bound-by-someone-else": func(t *rapid.T) {
